@@ -532,6 +532,86 @@ def run_case(case):
         return [("chain:%s:raises:%s" % (case["c"], type(e).__name__), "%r; %s" % (e, " | ".join(tb[-3:])))], 1
 
 
+def _grid_chunk(chunk, seed):
+    """values that actually reach a REAL storage server during a real immutable upload, a
+    check(add_lease=True) and a mutable create/overwrite, compared with the hashlib reference"""
+    from .. import grid as G, lib_imm, lib_mut, boot
+    from allmydata.mutable.publish import MutableData
+    from allmydata.monitor import Monitor
+    res = common.Result()
+    for (what, variant) in chunk:
+        g = G.Grid(3, client_kw=dict(k=2, n=3, happy=2, max_segment_size=64))
+        try:
+            c = g.clients[0]
+            lease_secret = b"lease-secret-0"          # vt.grid.VClient's SecretHolder(lease_secret, convergence)
+            seen = []
+
+            def ob(kind, ev, outcome):
+                if kind == "deliver":
+                    seen.append((ev.conn.si, ev.meth, ev.args))
+            g.sched.observers.append(ob)
+            if what == "immutable":
+                data = lib_imm.payload(100 + variant, seed, b"c17")
+                b = lib_imm.upload(g, data)
+                cap = b[0][1].get_uri()
+                node = c.create_node_from_uri(cap)
+                g.wait(node.check(Monitor(), verify=False, add_lease=True))
+                g.quiesce()
+                si = node.get_storage_index()
+                key = tahoe_uri_from_string(cap).key
+                checks = 0
+                if L.chk_storage_index(key) != si:
+                    res.violation("grid:chk-storage-index", {"t": "grid", "what": what, "variant": variant}, "storage index used on the wire is not H(key)")
+                if L.convergence_key(2, 3, 64, data, b"conv") != key:
+                    res.violation("grid:convergent-key", {"t": "grid", "what": what, "variant": variant}, "key in the cap is not the specified convergent key")
+                for (sv, meth, args) in seen:
+                    peerid = g.ids[sv]
+                    if meth in ("allocate_buckets", "add_lease"):
+                        checks += 1
+                        wsi, rs, cs = args[0], args[1], args[2]
+                        want_r = L.renewal_secret_chain(lease_secret, si, peerid)
+                        want_c = L.cancel_secret_chain(lease_secret, si, peerid)
+                        if wsi != si or rs != want_r or cs != want_c:
+                            res.violation("grid:lease-secret:" + meth, {"t": "grid", "what": what, "variant": variant}, "%s on server %d carried renew/cancel secrets that are not client->file->bucket derivations of the client's lease secret" % (meth, sv))
+                res.count("evaluations", checks + 2)
+                if not any(m == "add_lease" for (_, m, _) in seen):
+                    res.violation("grid:no-add-lease-seen", {"t": "grid", "what": what, "variant": variant}, "check(add_lease=True) sent no add_lease")
+            else:
+                b = lib_mut.create(g, what, b"contents %d" % variant)
+                node = b[0][1]
+                g.wait(node.overwrite(MutableData(b"second %d" % variant)))
+                g.quiesce()
+                u = node.get_cap()
+                wk, si = u.writekey, u.get_storage_index()
+                checks = 0
+                if L.ssk_storage_index(L.ssk_readkey(wk)) != si or u.readkey != L.ssk_readkey(wk):
+                    res.violation("grid:ssk-chain", {"t": "grid", "what": what, "variant": variant}, "writekey -> readkey -> storage index of a real mutable file differs from the specification")
+                for (sv, meth, args) in seen:
+                    peerid = g.ids[sv]
+                    if meth == "slot_testv_and_readv_and_writev":
+                        checks += 1
+                        wsi, (we, rs, cs) = args[0], args[1]
+                        if wsi != si or we != L.ssk_write_enabler(wk, peerid):
+                            res.violation("grid:write-enabler", {"t": "grid", "what": what, "variant": variant}, "write enabler sent to server %d is not H(WRITE_ENABLER_MASTER(writekey), nodeid)" % sv)
+                        if rs != L.renewal_secret_chain(lease_secret, si, peerid) or cs != L.cancel_secret_chain(lease_secret, si, peerid):
+                            res.violation("grid:lease-secret:slot_testv_and_readv_and_writev", {"t": "grid", "what": what, "variant": variant}, "mutable write to server %d carried lease secrets outside the specified chain" % sv)
+                res.count("evaluations", checks + 1)
+                if not checks:
+                    res.violation("grid:no-writes-seen", {"t": "grid", "what": what, "variant": variant}, "no mutable write observed")
+            res.count("cases")
+            res.count("nontrivial")
+            res.count("family:grid-" + what)
+            boot.R.take_errors(); boot.take_logged()
+        finally:
+            g.close()
+    return res
+
+
+def tahoe_uri_from_string(cap):
+    from allmydata import uri as _u
+    return _u.from_string(cap)
+
+
 def trivial(case):
     vals = [v for v in case.get("args", [])] + [case.get(k) for k in ("key", "lease_secret", "si", "data", "writekey", "a", "b", "tag")]
     return not any(isinstance(v, bytes) and v for v in vals) and case["t"] not in ("kat", "leasekat") and case.get("c") != "rsa"
@@ -552,6 +632,9 @@ def _chunk(chunk):
 
 
 def replay(case):
+    if case.get("t") == "grid":
+        r = _grid_chunk([(case["what"], case["variant"])], 0)
+        return [(v["sig"], v["msg"]) for v in r.violations]
     if "seeds" in case:
         case["seeds"] = list(case["seeds"])
     return run_case(case)[0]
@@ -565,6 +648,7 @@ def run(tier, seed):
     cases += func_cases(seed, tier)
     cases += chain_cases(seed, tier)
     res = common.pmap(_chunk, cases)
+    res.merge(common.pmap(_grid_chunk, [(w, v) for w in ("immutable", "SDMF", "MDMF") for v in range(2 if tier == "quick" else 6)], (seed,)))
     for c in (cases[40], cases[len(cases) // 2], cases[-1]):
         res.sample(c)
     fams = {k[7:]: v for k, v in res.counts.items() if k.startswith("family:")}
@@ -585,5 +669,5 @@ MANIFEST = {
     "engine": "E",
     "technique": "differential exhaustive enumeration: every derivation function and end-to-end secret chain over the full product of small input alphabets against a hashlib-only implementation of the specification pinned by published vectors",
     "text": "An independent hashlib-only implementation of the tagged SHA-256d derivations (written from docs/specifications and replayed against the project's published known-answer vectors) is compared byte for byte with the real code: every key/secret function of hashutil over the full product of its argument alphabets, and the chains client secret -> file secret -> per-server lease secret (MutableFileNode, immutable Checker, upload server selector against stub storage servers), write key -> read key -> storage index (all cap classes), write enabler, data key, RSA key -> write key/fingerprint, convergent key -> storage index, and directory child-cap encryption.",
-    "note": "Finite alphabets: detects structural mistakes (tag, order, truncation, netstring, wrong seed), which do not depend on the input. Values at a real storage server during a full upload/publish are left to the grid checks.",
+    "note": "Finite alphabets: detects structural mistakes (tag, order, truncation, netstring, wrong seed), which do not depend on the input. The values that reach real storage servers during a real immutable upload, check(add_lease=True) and SDMF/MDMF create+overwrite on the virtual grid (lease secrets, write enabler, storage index) are compared with the same reference.",
 }
